@@ -1282,10 +1282,13 @@ class Interp:
         path space whatever the hypothesis)."""
         st = self.st
         n0 = len(st.pc)
-        cs = z3.simplify(cond)
-        if z3.is_false(cs):
-            raise Infeasible()
-        st.assume(cond)
+        conds = cond if isinstance(cond, list) else [cond]
+        for c1 in conds:
+            if z3.is_false(z3.simplify(c1)):
+                raise Infeasible()
+        for c1 in conds:
+            st.assume(c1)
+        cond = z3.And(*conds) if len(conds) > 1 else conds[0]
         hyp_ids = {h.get_id() for h in st.pc[n0:]}
         try:
             return thunk()
@@ -1320,7 +1323,7 @@ class Interp:
                     return self.truthy(self.ev(sub, fr))
                 if hyp:
                     try:
-                        t = self.with_assumption(z3.And(*hyp) if len(hyp) > 1 else hyp[0], one)
+                        t = self.with_assumption(list(hyp), one)
                     except Infeasible:
                         break
                 else:
@@ -1800,6 +1803,15 @@ class Interp:
             objs = [a for a in alts if a[0] == 'obj']
             if len(objs) == 1:
                 obj = SV('ref', Val.rv(e), cls=objs[0][1])
+            elif len(objs) > 1:
+                chosen = None
+                for a in objs:
+                    if self.decide(z3.And(Val.is_r(e), cls_of(Val.rv(e)) == self.reg.cid(a[1]))):
+                        chosen = a
+                        break
+                if chosen is None:
+                    raise PyRaise(AttributeError, (), f'cannot set attribute {attr}')
+                obj = SV('ref', Val.rv(e), cls=chosen[1])
             elif obj.T and obj.T[0] == 'any':
                 # store through an untyped reference (Note.parent etc.): needs the dynamic class
                 raise Unsupported(f'store to attribute {attr} of an untyped value')
